@@ -53,26 +53,27 @@ structure Inv (st : St) : Prop where
   c1 : ∀ i a, st.pc i = .prD a false → a ∈ st.cleared
   c2 : ∀ a ∈ st.returned, a ∈ st.cleared
   w : ∀ a ∈ st.written, a ∈ st.returned
-  g : ∀ a ∈ st.used, addrLo ≤ a ∧ a ≤ addrHi
 
+/-- the default range of the library (regenerated) is a range -/
 theorem range_ok : addrLo ≤ addrHi := by decide
 
-theorem draw_range (r : Nat) : addrLo ≤ draw r ∧ draw r ≤ addrHi := by
-  have h := range_ok
-  have : r % (addrHi - addrLo + 1) < addrHi - addrLo + 1 := Nat.mod_lt _ (by omega)
+/-- whatever range is configured (`lo ≤ hi`, otherwise `randint` raises) and whatever the PRNG gives, the number drawn lies
+in the configured range -/
+theorem draw_range (cfg : Cfg) (hv : cfg.lo ≤ cfg.hi) (r : Nat) : cfg.lo ≤ draw cfg r ∧ draw cfg r ≤ cfg.hi := by
+  have : r % (cfg.hi - cfg.lo + 1) < cfg.hi - cfg.lo + 1 := Nat.mod_lt _ (by omega)
   unfold draw randint
   omega
 
-theorem drawFresh_spec {used ds : List Nat} {a : Nat} {rest : List Nat}
-    (h : drawFresh used ds = some (a, rest)) : a ∉ used ∧ addrLo ≤ a ∧ a ≤ addrHi := by
+theorem drawFresh_spec {cfg : Cfg} {used ds : List Nat} {a : Nat} {rest : List Nat}
+    (h : drawFresh cfg used ds = some (a, rest)) : a ∉ used ∧ (cfg.lo ≤ cfg.hi → cfg.lo ≤ a ∧ a ≤ cfg.hi) := by
   induction ds with
   | nil => simp [drawFresh] at h
   | cons r rs ih =>
     unfold drawFresh at h
-    by_cases hm : draw r ∈ used
+    by_cases hm : draw cfg r ∈ used
     · simp only [hm, ↓reduceIte] at h; exact ih h
     · simp only [hm, ↓reduceIte, Option.some.injEq, Prod.mk.injEq] at h
-      rw [← h.1]; exact ⟨hm, draw_range r⟩
+      rw [← h.1]; exact ⟨hm, fun hv => draw_range cfg hv r⟩
 
 /-- a task moves to a wait state that carries no drawn-and-unwritten address; nothing else that
 the invariant looks at changes -/
@@ -136,17 +137,16 @@ theorem inv_neutral {st st' : St} (hI : Inv st) (i : Nat) (p : Pc) (hp : cur p =
     · rw [pcj j hj] at hc; exact hI.c1 j a hc
   · rw [h3, h5]; exact hI.c2
   · rw [h6, h3]; exact hI.w
-  · rw [h2]; exact hI.g
 
 /-- `find_free_address` draws a number that is not in `used_addresses`, inserts it and sends the probe -/
-theorem inv_beginFind {st : St} (hI : Inv st) (tid : Nat) : Inv (beginFind st tid) := by
+theorem inv_beginFind (cfg : Cfg) {st : St} (hI : Inv st) (tid : Nat) : Inv (beginFind cfg st tid) := by
   unfold beginFind
-  cases hd : drawFresh st.used st.draws with
+  cases hd : drawFresh cfg st.used st.draws with
   | none =>
-    exact ⟨hI.u1, hI.u2, hI.r1, hI.r2, hI.r3, hI.r4, hI.h, hI.a1, hI.c1, hI.c2, hI.w, hI.g⟩
+    exact ⟨hI.u1, hI.u2, hI.r1, hI.r2, hI.r3, hI.r4, hI.h, hI.a1, hI.c1, hI.c2, hI.w⟩
   | some pr =>
     obtain ⟨a, rest⟩ := pr
-    obtain ⟨hnew, hrange⟩ := drawFresh_spec hd
+    have hnew := (drawFresh_spec hd).1
     have pcj : ∀ j, j ≠ tid → upd st.pc tid (.prS a) j = st.pc j := by intro j hj; simp [upd, hj]
     have pci : upd st.pc tid (.prS a) tid = .prS a := by simp [upd]
     constructor
@@ -197,10 +197,6 @@ theorem inv_beginFind {st : St} (hI : Inv st) (tid : Nat) : Inv (beginFind st ti
       · simp only [pcj j hj] at hc; exact hI.c1 j b hc
     · exact hI.c2
     · exact hI.w
-    · intro b hb
-      rcases List.mem_cons.1 hb with rfl | hb
-      · exact hrange
-      · exact hI.g b hb
 
 /-- the bus acts on a probe -/
 theorem inv_probe {st : St} (hI : Inv st) (tid a : Nat) (hpc : st.pc tid = .prS a) (ev : List Ev) :
@@ -280,7 +276,6 @@ theorem inv_probe {st : St} (hI : Inv st) (tid a : Nat) (hpc : st.pc tid = .prS 
     have := hI.c2 b hb
     cases hd : decide (a ∈ st.bus) <;> simp [this]
   · exact hI.w
-  · exact hI.g
 
 /-- the bus acts on the master's write of an address it got from `find_free_address` -/
 theorem inv_write {st : St} (hI : Inv st) (tid a pos : Nat) (hpc : st.pc tid = .wrS a) (ev : List Ev) :
@@ -326,7 +321,6 @@ theorem inv_write {st : St} (hI : Inv st) (tid a pos : Nat) (hpc : st.pc tid = .
     rcases List.mem_cons.1 hb with rfl | hb
     · exact hI.r4 tid b hpc
     · exact hI.w b hb
-  · exact hI.g
 
 /-- the unanswered probe reaches the task: `find_free_address` returns -/
 theorem inv_return {st : St} (hI : Inv st) (tid a : Nat) (hpc : st.pc tid = .prD a false) (ev : List Ev) :
@@ -388,7 +382,6 @@ theorem inv_return {st : St} (hI : Inv st) (tid a : Nat) (hpc : st.pc tid = .prD
     · exact hI.c2 b hb
     · simp at hb; subst hb; exact hI.c1 tid b hpc
   · intro b hb; exact List.mem_append_left _ (hI.w b hb)
-  · exact hI.g
 
 theorem inv_process (cfg : Cfg) {st : St} (hI : Inv st) (tid : Nat) : Inv (process cfg st tid) := by
   unfold process
@@ -413,12 +406,12 @@ theorem inv_deliver (cfg : Cfg) {st : St} (hI : Inv st) (tid : Nat) : Inv (deliv
   | done => exact hI
   | rdD v =>
     by_cases hv : v = 0
-    · simp only [hv, ↓reduceIte]; exact inv_beginFind hI tid
+    · simp only [hv, ↓reduceIte]; exact inv_beginFind cfg hI tid
     · simp only [hv, ↓reduceIte]
       exact inv_neutral hI tid _ (by simp [cur]) rfl rfl rfl rfl rfl rfl rfl
   | prD a ans =>
     cases ans with
-    | true => exact inv_beginFind hI tid
+    | true => exact inv_beginFind cfg hI tid
     | false => exact inv_return hI tid a hpc _
   | wrD a =>
     dsimp only
@@ -432,7 +425,7 @@ theorem inv_deliver (cfg : Cfg) {st : St} (hI : Inv st) (tid : Nat) : Inv (deliv
 
 /-- the queue plays no role in the invariant -/
 theorem inv_queue {st : St} (hI : Inv st) (q : List Nat) : Inv { st with queue := q } :=
-  ⟨hI.u1, hI.u2, hI.r1, hI.r2, hI.r3, hI.r4, hI.h, hI.a1, hI.c1, hI.c2, hI.w, hI.g⟩
+  ⟨hI.u1, hI.u2, hI.r1, hI.r2, hI.r3, hI.r4, hI.h, hI.a1, hI.c1, hI.c2, hI.w⟩
 
 theorem inv_step (cfg : Cfg) (s : Nat) {st : St} (hI : Inv st) : Inv (step cfg s st) := by
   unfold step
@@ -454,8 +447,8 @@ theorem inv_start (cfg : Cfg) {st : St} (hI : Inv st) (tid : Nat) : Inv (startTa
         rfl rfl rfl rfl rfl rfl rfl) _
     · simp only
       split
-      · exact inv_beginFind hI tid
-      · exact inv_queue (inv_beginFind hI tid) _
+      · exact inv_beginFind cfg hI tid
+      · exact inv_queue (inv_beginFind cfg hI tid) _
 
 theorem inv_base (cfg : Cfg) : Inv (base cfg) := by
   constructor <;> simp [base, cur, cand, hold]
@@ -480,18 +473,111 @@ theorem inv_run (cfg : Cfg) (sched : List Nat) : Inv (run cfg sched) :=
 
 /-! ### the property -/
 
+/-! #### the configured range: everything in `used_addresses` was drawn from it -/
+
+def UsedIn (cfg : Cfg) (st : St) : Prop := ∀ a ∈ st.used, cfg.lo ≤ a ∧ a ≤ cfg.hi
+
+theorem usedIn_beginFind (cfg : Cfg) (hv : cfg.lo ≤ cfg.hi) {st : St} (h : UsedIn cfg st) (tid : Nat) :
+    UsedIn cfg (beginFind cfg st tid) := by
+  unfold beginFind
+  cases hd : drawFresh cfg st.used st.draws with
+  | none => exact h
+  | some pr =>
+    obtain ⟨a, rest⟩ := pr
+    intro b hb
+    rcases List.mem_cons.1 hb with rfl | hb
+    · exact (drawFresh_spec hd).2 hv
+    · exact h b hb
+
+theorem process_used (cfg : Cfg) (st : St) (tid : Nat) : (process cfg st tid).used = st.used := by
+  unfold process
+  split <;> rfl
+
+theorem usedIn_deliver (cfg : Cfg) (hv : cfg.lo ≤ cfg.hi) {st : St} (h : UsedIn cfg st) (tid : Nat) :
+    UsedIn cfg (deliver cfg st tid) := by
+  unfold deliver
+  split
+  · split
+    · exact usedIn_beginFind cfg hv h tid
+    · exact h
+  · exact usedIn_beginFind cfg hv h tid
+  · exact h
+  · dsimp only
+    split <;> exact h
+  · exact h
+  · exact h
+  · exact h
+
+theorem usedIn_step (cfg : Cfg) (hv : cfg.lo ≤ cfg.hi) (s : Nat) {st : St} (h : UsedIn cfg st) : UsedIn cfg (step cfg s st) := by
+  unfold step
+  split
+  · exact h
+  · split
+    · exact h
+    · dsimp only
+      split
+      · intro a ha; rw [process_used] at ha; exact h a ha
+      · exact usedIn_deliver cfg hv h _
+
+theorem usedIn_start (cfg : Cfg) (hv : cfg.lo ≤ cfg.hi) {st : St} (h : UsedIn cfg st) (tid : Nat) :
+    UsedIn cfg (startTask cfg st tid) := by
+  unfold startTask
+  split
+  · exact h
+  · split
+    · exact h
+    · simp only
+      split
+      · exact usedIn_beginFind cfg hv h tid
+      · exact usedIn_beginFind cfg hv h tid
+
+theorem usedIn_run (cfg : Cfg) (hv : cfg.lo ≤ cfg.hi) (sched : List Nat) : UsedIn cfg (run cfg sched) := by
+  have h0 : UsedIn cfg (initSt cfg) := by
+    unfold initSt
+    have : ∀ (ids : List Nat) (st : St), UsedIn cfg st → UsedIn cfg (ids.foldl (startTask cfg) st) := by
+      intro ids
+      induction ids with
+      | nil => intro st h; exact h
+      | cons i ids ih => intro st h; exact ih _ (usedIn_start cfg hv h i)
+    exact this _ _ (by intro a ha; simp [base] at ha)
+  unfold run
+  have : ∀ (sched : List Nat) (st : St), UsedIn cfg st → UsedIn cfg (sched.foldl (fun st s => step cfg s st) st) := by
+    intro sched
+    induction sched with
+    | nil => intro st h; exact h
+    | cons s sched ih => intro st h; exact ih _ (usedIn_step cfg hv s h)
+  exact this _ _ h0
+
 /-- every address returned by `find_free_address` and every address the master writes into a
-station-address register lies in `terminal_addr_range` (both ends included) -/
-theorem in_range (cfg : Cfg) (sched : List Nat) :
-    ∀ a ∈ (run cfg sched).returned ++ (run cfg sched).written, addrLo ≤ a ∧ a ≤ addrHi := by
+station-address register lies in the `terminal_addr_range` **configured for this master** (both ends included),
+for every configured range -/
+theorem in_range (cfg : Cfg) (hv : cfg.lo ≤ cfg.hi) (sched : List Nat) :
+    ∀ a ∈ (run cfg sched).returned ++ (run cfg sched).written, cfg.lo ≤ a ∧ a ≤ cfg.hi := by
   intro a ha
   have hI := inv_run cfg sched
+  have hU := usedIn_run cfg hv sched
   rcases List.mem_append.1 ha with ha | ha
-  · exact hI.g a (hI.r2 a ha)
-  · exact hI.g a (hI.r2 a (hI.w a ha))
+  · exact hU a (hI.r2 a ha)
+  · exact hU a (hI.r2 a (hI.w a ha))
 
-/-- `randint(lo, hi)` covers both ends: `hi` itself can be drawn -/
-theorem range_inclusive : draw 0 = addrLo ∧ draw (addrHi - addrLo) = addrHi := by decide
+/-- a master whose range was not configured uses the library's default (regenerated from /repo), which is a range -/
+theorem in_range_default (bus serials draws : List Nat) (tasks : List Task) (sched : List Nat) :
+    ∀ a ∈ (run { bus, serials, draws, tasks } sched).returned ++ (run { bus, serials, draws, tasks } sched).written,
+      addrLo ≤ a ∧ a ≤ addrHi :=
+  in_range { bus, serials, draws, tasks } range_ok sched
+
+/-- `randint(lo, hi)` covers both ends of every configured range: `hi` itself can be drawn -/
+theorem range_inclusive (cfg : Cfg) (hv : cfg.lo ≤ cfg.hi) : draw cfg 0 = cfg.lo ∧ draw cfg (cfg.hi - cfg.lo) = cfg.hi := by
+  unfold draw randint
+  refine ⟨by simp, ?_⟩
+  rw [Nat.mod_eq_of_lt (by omega)]
+  omega
+
+/-- two masters with different configured ranges: the range of one plays no role for the other (the range is part of
+the master's configuration, nothing else of it enters a run) -/
+theorem range_is_per_master (c1 c2 : Cfg) (h1 : c1.lo ≤ c1.hi) (h2 : c2.lo ≤ c2.hi) (s1 s2 : List Nat) :
+    (∀ a ∈ (run c1 s1).returned, c1.lo ≤ a ∧ a ≤ c1.hi) ∧ (∀ a ∈ (run c2 s2).returned, c2.lo ≤ a ∧ a ≤ c2.hi) :=
+  ⟨fun a ha => in_range c1 h1 s1 a (List.mem_append_left _ ha), fun a ha => in_range c2 h2 s2 a (List.mem_append_left _ ha)⟩
 
 /-- the addresses returned by `find_free_address` are pairwise distinct, every one of them is in
 `used_addresses`, and the master only writes addresses it was handed out -/
@@ -530,6 +616,8 @@ example : (run exCfg exSched).returned = [1000, 30000, 1003] := by decide
 example : (run exCfg exSched).answered = [1005] := by decide
 example : (run exCfg exSched).bus = [30000, 1005, 1003] := by decide
 example : finished (run exCfg exSched) = true := by decide
+-- the same bus under a configured range that does not meet the default one
+example : (run { exCfg with lo := 40000, hi := 40009, draws := [9, 9, 10, 3] } exSched).returned = [40009, 40000] := by decide
 example : (run exCfg exSched).map = [(-1, 1005), (7, 30000)] := by decide
 
 end Ebv.C25
